@@ -19,7 +19,16 @@ ENGINES = [
     {'name': 'watchdog', 'path': 'vf/watchdog.py', 'serves_properties': [],
      'kind_free_text': '/proc-based quiescence detector and logical deadlock verdict'},
     {'name': 'yieldinj', 'path': 'vf/yieldinj.py', 'serves_properties': [],
-     'kind_free_text': 'sys.monitoring LINE-event yield injection and race-window steering on s3transfer code objects only'},
+     'kind_free_text': 'sys.monitoring LINE / INSTRUCTION-event yield injection and race-window steering on s3transfer code objects only'},
+    {'name': 'windows', 'path': 'vf/windows.py vf/yieldinj.py', 'serves_properties': ['C02', 'C04', 'C07', 'C08', 'C16', 'C17', 'C19', 'C20'],
+     'kind_free_text': 'one-preemption sweeps: a thread is held at a statement line (LINE events) or INSIDE a read-modify-write '
+                       'statement between its load and its store (INSTRUCTION events) until every other thread has run as far as it can'},
+    {'name': 'lockset', 'path': 'vf/lockset.py', 'serves_properties': ['C10', 'C11', 'C12', 'C13', 'C17'],
+     'kind_free_text': 'Eraser-style single-lock discipline monitor on the shared fields of the semaphores, the coordinator and the '
+                       'bandwidth scheduler (writes and reads checked against the owner of the object\'s own lock)'},
+    {'name': 'oshook', 'path': 'vf/oshook.py', 'serves_properties': ['C03', 'C06', 'C19'],
+     'kind_free_text': 'sys.addaudithook observer of open / os.rename / os.remove on watched destinations: directory snapshots at every '
+                       'file-system step, and failpoints for system calls made below the OSUtils wrapper'},
     {'name': 'model', 'path': 'vf/props/c12.py vf/props/c16.py vf/props/c17.py', 'serves_properties': ['C12', 'C16', 'C17'],
      'kind_free_text': 'reference models written from the statements, compared with the real classes over the reachable state graph'},
     {'name': 'vtime', 'path': 'vf/vtime.py', 'serves_properties': ['C13'],
@@ -51,19 +60,19 @@ chk('C02', 'fault_enumeration',
     'with short reads whose chunk boundaries differ between attempts and gated part orders, across transfer manager (4 '
     'destination kinds), legacy download_file and the process-pool worker loop; destination bytes compared with the object.',
     'Fault positions/kinds are enumerated on small objects; schedules are sampled. Fake response bodies raise the urllib3/socket '
-    'exceptions botocore translates.', 'end-to-end content oracle under enumerated stream faults', '4 C02', 'world,director,runner')
+    'exceptions botocore translates.', 'end-to-end content oracle under enumerated stream faults', '4 C02', 'world,director,windows,procpool,runner')
 chk('C03', 'fault_enumeration',
     'A dry run lists every boundary event of each transfer type/mode; one run per (event, before/mid/after effect, fault kind), '
     'retry-budget exhaustion per range, and (thorough) fault pairs; result() is compared with the log of faults actually raised.',
     'Fault kinds are Exception subclasses; abort/cleanup/on_done faults excluded as the statement does.',
-    'outcome oracle over the raised-fault log', '4 C03', 'world,director,runner')
+    'outcome oracle over the raised-fault log', '4 C03', 'world,director,oshook,procpool,runner')
 chk('C04', 'exploration',
     'Every run must return from result()/cancel()/shutdown() before a /proc-based quiescence detector finds all threads asleep '
     'with obligations outstanding (logical deadlock verdict with stack witness). Families: small-limit lattice, 2-4 contending '
     'transfers with gates, cancel-before-start, named race windows, re-entrant subscribers, line-level yield-injection stress.',
     'No scheduler owns CPython thread switching: interleavings are randomized and steered, not enumerated to a preemption bound; '
     'unbounded liveness restated as never-quiescent-while-unfinished.',
-    'quiescence-based deadlock detection on real threads', '4 C04', 'world,director,watchdog,yieldinj,runner')
+    'quiescence-based deadlock detection on real threads', '4 C04', 'world,director,watchdog,yieldinj,windows,runner')
 chk('C05', 'fault_enumeration',
     'Per multipart upload id delivered to the library the fake S3 begin/end log is checked after one run per fault position and '
     'per cancel point (uploads x 3 source kinds, copies, legacy uploader): completed once xor aborted before done; no request '
@@ -75,14 +84,14 @@ chk('C06', 'fault_enumeration',
     'the end, for one run per fault in open/write/close/rename/request/body and per cancel point, through manager, legacy and '
     'process-pool (in-process) front-ends.',
     'All file-system effects pass through hooked OSUtils/file wrappers; below-syscall tearing not observable.',
-    'directory-state monitor at every boundary event', '4 C06', 'world,director,runner')
+    'directory-state monitor at every boundary event', '4 C06', 'world,director,oshook,procpool,runner')
 chk('C07', 'fault_enumeration',
     'Cancel at every boundary event (before/after its effect) x entry points (future.cancel from event/user thread, '
     'shutdown(cancel=True,msg), with-block exception, with-block KeyboardInterrupt), plus behaviourally established '
-    'cancel-before-start, cancel-after-done and race windows of the final task; result() type+message, no requests for '
+    'cancel-before-start, cancel-after-done, race windows of the final task, and several user threads submitting at once (one held inside the id-counter update) before a manager-wide cancel; result() type+message, no requests for '
     'not-started transfers, cleanup oracles.',
     'A cancel racing the final step may yield success iff the effect is complete.', 'cancel-point enumeration with outcome and cleanup oracles',
-    '4 C07', 'world,director,watchdog,yieldinj,runner')
+    '4 C07', 'world,director,watchdog,yieldinj,windows,runner')
 
 chk('C08', 'exploration',
     'Recording subscribers and the fake S3 share one event counter; after runs covering every transfer type x success / each fault '
@@ -90,7 +99,7 @@ chk('C08', 'exploration',
     'merged log is checked for on_queued/on_done exactly-once, ordering against requests, cleanups and on_progress, raising on_done '
     'isolation and HeadObject suppression.',
     'Interleavings are steered (line windows, yields) not enumerated.', 'offline trace checker over merged callback / S3 log',
-    '4 C08', 'world,director,yieldinj,runner')
+    '4 C08', 'world,director,watchdog,yieldinj,windows,runner')
 chk('C09', 'exploration',
     'Running-sum monitor inside the recording subscriber over uploads/downloads/copies with forced body rewinds at every partial '
     'consumption point, http signing reads, both checksum modes, stream faults with short reads, bodies around the 256 KiB '
@@ -101,29 +110,29 @@ chk('C10', 'exploration',
     'Offline sweep over begin/end events of fake-S3 calls, destination writes and a counting executor for 2-4 mixed transfers under '
     'asymmetric small limits, with quiescence-driven gates so the maxima are actually reached (evidence reports bound_reached per stage).',
     'Counts are lower bounds of the real quantities, so alarms are sound; schedules steered, not enumerated.',
-    'interval-overlap monitor over the event log', '4 C10', 'world,director,watchdog,runner')
+    'interval-overlap monitor over the event log', '4 C10', 'world,director,watchdog,lockset,runner')
 chk('C11', 'exploration',
     'Byte-level buffer accounting for stream uploads, part look-ahead for non-seekable downloads and IO-queue occupancy, under small '
-    'limits with gates making the lowest part the slowest; thorough adds real 5 MiB parts with a tracemalloc peak.',
+    'limits with gates making the lowest part the slowest; thorough adds real 5 MiB parts with a tracemalloc peak; pending IO bytes count every bytes-like object an IO task carries; a lockset monitor sits on the manager's window semaphores.',
     'Measured quantities are lower bounds; evaluated on the fault-free prefix.', 'buffer/look-ahead monitors over the event log',
-    '4 C11', 'world,director,runner')
+    '4 C11', 'world,director,lockset,runner')
 chk('C12', 'exploration',
     'Real semaphores vs a reference model over the complete reachable (model,real) state graph up to the length bound (exhaustive), '
     'blocking acquirers as real threads against every release order under yield injection (quiescence = lost wake-up verdict), and a '
     'behavioural capacity probe after end-to-end runs with faults/cancels.',
     'Double release of a valid token is outside the statement; probe reaches executors through manager attributes.',
-    'reference-model differential + quiescence + capacity probe', '4 C12', 'model,watchdog,yieldinj,world,runner')
+    'reference-model differential + quiescence + capacity probe', '4 C12', 'model,watchdog,yieldinj,lockset,world,runner')
 chk('C16', 'exploration',
     'All delivery histories the download loop can produce up to the bound (exhaustive), random longer ones, and histories pushed by '
     'one thread per part through the real non-seekable output manager and IO executor into a recording sink.',
     'Attempts deliver identical bytes for identical positions.', 'exhaustive history enumeration against a set-of-positions reference',
-    '4 C16', 'model,yieldinj,runner')
+    '4 C16', 'model,yieldinj,windows,world,runner')
 chk('C17', 'exploration',
     'Real coordinator/future vs a reference state machine over the complete reachable state graph to the length bound (exhaustive), '
     '2-3 thread splits checked for linearizability against the model under yield injection, an Eraser-style lockset monitor, and the '
     'same assertions inside real transfers.',
     'Non-done to non-done transitions are not demanded to be rejected.', 'reference-model differential + linearizability + lockset',
-    '4 C17', 'model,yieldinj,world,runner')
+    '4 C17', 'model,yieldinj,windows,lockset,world,runner')
 chk('C18', 'exploration',
     'Each mix of 2-4 transfers is run twice (baseline and with a subset failing/cancelled); shutdown is issued while transfers run; '
     'event numbers after the return marker (checked after quiescence), surviving stage threads, bystander outcomes/bytes vs baseline, '
@@ -137,7 +146,7 @@ chk('C13', 'exploration',
     'oracles O1-O6 over the read and sleep logs, plus an end-to-end smoke through TransferManager(max_bandwidth).',
     'Wall-clock behaviour is represented by the lateness parameter only; the burst allowance B is deliberately loose. Two genuine '
     'defects (F6, F7) are recorded in known_findings.json and reported as KNOWN-FINDING.',
-    'virtual-time simulation with offline rate / wait-bound oracles', '4 C13', 'vtime,runner')
+    'virtual-time simulation with offline rate / wait-bound oracles', '4 C13', 'vtime,lockset,world,runner')
 chk('C14', 'exploration',
     'Real transfers against the API-level fake: the complete scaled domain (size 0..64 x threshold 1..16 x chunksize 1..16; thorough '
     'exhaustive, quick a seeded third) and real-scale boundary sizes up to 5 TiB incl. 10000-part plans, for uploads, copies and the '
@@ -146,7 +155,7 @@ chk('C14', 'exploration',
     'request-log tiling oracle at API level', '4 C14', 'world,runner')
 chk('C15', 'exploration',
     'Exhaustive table: every allowed extra-argument name x method x mode (incl. failing multipart so the abort is seen) x front-end, '
-    'one real transfer per cell, captured keyword arguments compared with the installed botocore S3 model; all checksum-name '
+    'one real transfer per cell, captured keyword arguments (and the DEBUG log's duplicates) compared with the installed botocore S3 model; all checksum-name '
     'subsets; all non-allowed names rejected before any request.',
     'Compared against botocore 1.43.x as installed; copy HeadObject judged by the mapped names only. Two findings (F10, F11b) are '
     'recorded as KNOWN-FINDING.', 'exhaustive argument-routing table vs service model', '4 C15', 'world,runner')
@@ -155,10 +164,10 @@ chk('C19', 'exploration',
     'cancel point, job fault, allocate/rename fault, exit mode, gates and yield injection; the directory is inspected inside the done '
     'notification; plus real-process (fork) runs.',
     'Real cross-process interleavings are not steered; worker death out of scope.', 'protocol trace checker + directory oracle',
-    '4 C19', 'procpool,director,yieldinj,runner')
+    '4 C19', 'procpool,director,yieldinj,windows,oshook,runner')
 chk('C20', 'exploration',
     'The real CRTTransferManager Python layer against a stub awscrt: all outcome assignments over {ok,error,cancel,serialize-fail,'
     'make-fail} for <=3/4 transfers x completion orders, random runs with far more transfers than permits, exits with pending '
-    'requests and slow on_done; per-transfer permit-release attribution, semaphore value at quiescence, ordering and temp-file oracles.',
+    'requests and slow on_done, calls the manager refuses, transfers chained from on_done callbacks; per-transfer permit-release attribution, semaphore value at quiescence, ordering and temp-file oracles.',
     'awscrt itself is absent: only the Python glue is exercised against a stub that honours the documented callback contract.',
-    'stub-driven glue monitor', '4 C20', 'crtstub,watchdog,runner')
+    'stub-driven glue monitor', '4 C20', 'crtstub,watchdog,windows,runner')
